@@ -198,6 +198,10 @@ class Ctx:
         if emit:
             emit.close()
         res["out"] = "".join(tail[-60:])
+        try:
+            res["text"] = "".join(l for l in open(logp, errors="replace") if not (l.startswith('"{') or l.startswith('"[')))
+        except OSError:
+            res["text"] = ""
         completed = "Model checking completed. No error has been found." in res["out"] or \
             (simulate and p.returncode in (0, 124) and res["violated"] is None and "Error:" not in res["out"])
         res["ok"] = bool(completed)
@@ -325,17 +329,21 @@ def trace_verdict(ctx, res, trace_path, aux_path=None, check="trace", describe=N
     """Interpret the output of a Trace*.tla run: the spec prints <<"VERIF-REJECTED", {line numbers}>> and
     <<"VERIF-CONSUMED", n>>; every rejected line becomes a violation carrying the recorded event
     (and the concrete input from the aux file, when there is one)."""
-    consumed, rejected, whys = None, [], {}
-    for line in res["printed"]:
-        m = re.search(r'"VERIF-WHY",\s*(\d+),\s*\{([^}]*)\}', line)
-        if m:
-            whys[int(m.group(1))] = ",".join(sorted(re.findall(r'"(\w+)"', m.group(2))))
-        m = re.search(r'"VERIF-CONSUMED",\s*(\d+)', line)
-        if m:
-            consumed = int(m.group(1))
-        m = re.search(r'"VERIF-REJECTED",\s*\{([^}]*)\}', line)
-        if m:
-            rejected = [int(x) for x in re.findall(r"\d+", m.group(1))]
+    # TLC wraps long values over several lines: match over the whole output, not line by line
+    consumed, rejected, whys = None, None, {}
+    text = res.get("text") or "\n".join(res["printed"])
+    for m in re.finditer(r'"VERIF-WHY",\s*(\d+),\s*\{([^}]*)\}', text, re.S):
+        whys[int(m.group(1))] = ",".join(sorted(re.findall(r'"(\w+)"', m.group(2))))
+    m = re.search(r'"VERIF-CONSUMED",\s*(\d+)', text)
+    if m:
+        consumed = int(m.group(1))
+    m = re.search(r'"VERIF-REJECTED",\s*\{([^}]*)\}', text, re.S)
+    if m:
+        rejected = [int(x) for x in re.findall(r"\d+", m.group(1))]
+    if rejected is None:
+        raise Infra("trace validation printed no VERIF-REJECTED set\n%s" % res["out"][-2000:])
+    if whys and set(whys) != set(rejected):
+        raise Infra("trace validation: rejected set %s and explained set %s disagree" % (sorted(rejected)[:10], sorted(whys)[:10]))
     nlines = sum(1 for _ in open(trace_path))
     if consumed is None or consumed != nlines:
         raise Infra("trace validation did not consume the whole trace (%s of %d)\n%s" % (consumed, nlines, res["out"][-2000:]))
